@@ -46,11 +46,49 @@ def be(n, k):
     return int(n).to_bytes(k, 'big')
 
 
+# Dictionary harvested from the source: integer and string literals that occur in /repo's current non-test sources but
+# not in the tree the model was validated against (py/lib.py: source_literals).  Empty on the unchanged tree, so the
+# generators then behave exactly as without it; after a change, its literals become likely field values, sizes and
+# payload contents (a condition on a magic constant is otherwise out of reach of random generation).
+DICT = []
+DICT_BYTES = []
+RECENT = []      # recently drawn field values: reused now and then so that relations between fields (a == b, a == b +- 1) occur
+
+
 def rbytes(rng, n):
-    return bytes(rng.getrandbits(8) for _ in range(n)) if n < 64 else rng.getrandbits(8 * n).to_bytes(n, 'big')
+    b = bytes(rng.getrandbits(8) for _ in range(n)) if n < 64 else rng.getrandbits(8 * n).to_bytes(n, 'big')
+    if (DICT or DICT_BYTES) and n > 0 and rng.random() < 0.2:
+        if DICT_BYTES and rng.random() < 0.5:
+            s = rng.choice(DICT_BYTES)
+        else:
+            v = rng.choice(DICT) if DICT else 0
+            k = rng.choice([1, 2, 4])
+            s = (v & ((1 << (8 * k)) - 1)).to_bytes(k, 'big')
+        if len(s) <= n:
+            off = rng.choice([0, n - len(s), rng.randrange(0, n - len(s) + 1)])
+            b = b[:off] + s + b[off + len(s):]
+        elif rng.random() < 0.5:
+            b = s[:n]
+    return b
 
 
 def extreme(rng, bits):
+    m = (1 << bits) - 1
+    if DICT and rng.random() < 0.3:
+        v = rng.choice(DICT) + rng.choice([0, 0, 0, 1, -1])
+        RECENT.append(v & m)
+        return v & m
+    if RECENT and rng.random() < 0.06:
+        v = (rng.choice(RECENT[-6:]) + rng.choice([0, 0, 1, -1])) & m
+        return v
+    v = _extreme(rng, bits)
+    RECENT.append(v)
+    if len(RECENT) > 64:
+        del RECENT[:32]
+    return v
+
+
+def _extreme(rng, bits):
     m = (1 << bits) - 1
     c = rng.random()
     if c < 0.35:
@@ -86,6 +124,10 @@ def rutf8(rng, nbytes):
 
 
 def rsize(rng, lo=1, hi=1017):
+    if DICT and rng.random() < 0.2:
+        v = rng.choice(DICT) + rng.choice([0, 0, 1, -1, -2, -6])
+        if lo <= v <= hi:
+            return v
     c = rng.random()
     if c < 0.3:
         return max(lo, min(hi, rng.choice(SIZES)))
